@@ -266,7 +266,7 @@ func C01(c *Ctx) {
 	c.R.Rule("C01-R16", "E3", "records of alternatives do not share a backing array", 1)
 	c01AppendInLoopShares(c, "C01-R16", m.fns)
 	c.R.Rule("C01-R15", "E5", "the strings compared are the strings given", 1)
-	c01ComparedAsIs(c, "C01-R15", m.fns)
+	c01ComparedAsIs(c, "C01-R15", m)
 	c.R.Rule("C01-R14", "E7", "numbers are compared as they are: the matcher does no arithmetic on them", 1)
 	c01NoArithmetic(c, "C01-R14", m.fns)
 	for _, f := range m.fns {
